@@ -464,6 +464,9 @@ pub fn exec(line: &str, _model: &mut Model) -> Option<Exec> {
             let r = no_panic(|| EndpointID::try_from(s.as_str()));
             let mut e = Exec::new(match &r { None => "panic".into(), Some(Ok(x)) => format!("ok {}", show_eid(x)), Some(Err(_)) => "err".into() });
             if !matches!(r, Some(Err(_))) { e.oracle_fail = Some(format!("malformed EID string {:?} not rejected", s)); }
+            // every public way in that takes text: the owned-String parser, and the text a bundle manifest / FFI caller hands over
+            let r2 = no_panic(|| EndpointID::try_from(s.clone()));
+            if e.oracle_fail.is_none() && !matches!(r2, Some(Err(_))) { e.oracle_fail = Some(format!("malformed EID string {:?} not rejected by TryFrom<String>: {:?}", s, r2)); }
             Some(e)
         }
         "eid.withdtn" => {
